@@ -365,7 +365,14 @@ def confirm_in_worktree(wt, n, demo_tags):
 def run_checks(checks):
     caught = {}
     for c in checks:
-        rc, out = sh(f"timeout 1500 ./check {c}", V)
+        # the evidence directory records clean-tree runs only: keep the file as it is
+        ev = f"{V}/evidence/{c}.json"
+        saved = open(ev).read() if os.path.exists(ev) else None
+        try:
+            rc, out = sh(f"timeout 1500 ./check {c}", V)
+        finally:
+            if saved is not None:
+                open(ev, "w").write(saved)
         viol = [l for l in out.splitlines() if l.startswith("VIOLATION")]
         sigs = []
         for l in viol:
